@@ -81,14 +81,17 @@ std::string configJson(int cfg) {
                        "{\"name\":\"senpai\",\"args\":{\"cgroup\":\"s/*\",\"interval\":\"1\",\"immediate_backoff\":\"true\",\"swap_validation\":\"true\",\"modulate_swappiness\":\"true\"}}]}";
   std::string rc = "{\"name\":\"RC\",\"cgroup\":\"rc/*\",\"post_action_delay\":\"0\",\"detectors\":[[\"gc\",{\"name\":\"continue\",\"args\":{}}]],\"actions\":[" + killJ("kill_by_pressure", ",\"resource\":\"io\"") + "]}";
   std::string hooks = ",\"prekill_hooks\":[{\"name\":\"dummy_prekill_hook\",\"args\":{\"cgroup\":\"/\"}}]";
-  std::string rs = cfg == 0 ? det + "," + kill + "," + senpai + "," + rc : cfg == 1 ? kill + "," + rc : cfg == 2 ? senpai : det;
+  // cfg 4: the kill rulesets behind a scripted hook that stays pending for one tick per invocation, so that every kill is
+  // deferred and resumed from its serialized candidate stack (cgroups may vanish / be re-created in between)
+  if (cfg == 4) hooks = ",\"prekill_hooks\":[{\"name\":\"verif_hook\",\"args\":{\"id\":\"h\",\"cgroup\":\"/\"}}]";
+  std::string rs = cfg == 0 ? det + "," + kill + "," + senpai + "," + rc : (cfg == 1 || cfg == 4) ? kill + "," + rc : cfg == 2 ? senpai : det;
   return "{\"rulesets\":[" + rs + "]" + hooks + "}";
 }
 
 struct C10 : vr::Driver {
   std::vector<Item> items;
   std::string tier_;
-  long accessesBaseline[4] = {0, 0, 0, 0};
+  long accessesBaseline[5] = {0, 0, 0, 0, 0};
   static const int kTicks = 3;
   std::string id() override { return "C10"; }
 
@@ -239,7 +242,8 @@ struct C10 : vr::Driver {
         vb::dtUnknown = false;
       }
     } guard;
-    auto out = sim::runTicks(*o, kTicks, [&](int k) {
+    if (it.cfg == 4) sim::hookDecide = [](const std::string&, long, int polls) { return polls >= 1; };
+    auto out = sim::runTicks(*o, it.cfg == 4 ? 2 * kTicks : kTicks, [&](int k) {
       for (auto& rel : world::allCgroups())
         if (!rel.empty() && vb::rawExists(world::cgfs() + "/" + rel + "/memory.stat")) {
           // counters move between ticks
@@ -282,6 +286,7 @@ struct C10 : vr::Driver {
     // (1) static single faults, on the everything-on configuration and on the three slimmer ones
     for (int cfg = 0; cfg < 4; cfg++) {
       items.push_back({cfg, {}});
+      if (cfg == 0) items.push_back({4, {}});
       for (int role = 0; role < kNRoles; role++)
         for (int file = 0; file < kNFiles; file++)
           for (int kind = 0; kind < 3; kind++) {
@@ -342,27 +347,28 @@ struct C10 : vr::Driver {
       int dn = open("/dev/null", O_WRONLY);
       dup2(dn, 2);
       sim::processInit();
-      long acc[4] = {0, 0, 0, 0};
-      for (int cfg = 0; cfg < 2; cfg++) execute(Item{cfg, {}}, &acc[cfg], false);
+      long acc[5] = {0, 0, 0, 0, 0};
+      for (int cfg : {0, 1, 4}) execute(Item{cfg, {}}, &acc[cfg], false);
       (void)!write(p[1], acc, sizeof acc);
       _exit(0);
     }
     close(p[1]);
-    long acc[4] = {0, 0, 0, 0};
+    long acc[5] = {0, 0, 0, 0, 0};
     (void)!read(p[0], acc, sizeof acc);
     close(p[0]);
     int st;
     waitpid(pid, &st, 0);
-    for (int k = 0; k < 4; k++) accessesBaseline[k] = acc[k];
+    for (int k = 0; k < 5; k++) accessesBaseline[k] = acc[k];
     bool th = tier_ == "thorough";
-    for (int cfg = 0; cfg < 2; cfg++) {
+    for (int cfg : {0, 1, 4}) {
       if (cfg == 1 && !th) continue;
       long n = accessesBaseline[cfg];
       long stride = 1;
       for (long k = 1; k <= n; k += stride)
-        for (int role = 0; role < 6; role++)
+        for (int role = 0; role < (cfg == 4 ? 4 : 6); role++)
           for (int ev = 0; ev < 2; ev++) {
             if (!th && ev == 1 && (k % 2)) continue;  // quick: re-creation at every second access point
+            if (!th && cfg == 4 && ev == 0 && (k % 2) == 0) continue;  // quick, deferred-kill configuration: alternate removal / re-creation
             Fault f;
             f.type = 2;
             f.role = role;
@@ -378,7 +384,7 @@ struct C10 : vr::Driver {
   }
   size_t chunk() override { return 8; }
   std::string describe(size_t i) override {
-    std::string s = std::string("config ") + (items[i].cfg == 0 ? "everything-on" : items[i].cfg == 1 ? "kill+ruleset-cgroup" : items[i].cfg == 2 ? "senpai" : "detectors") + " faults:";
+    std::string s = std::string("config ") + (items[i].cfg == 0 ? "everything-on" : items[i].cfg == 1 ? "kill+ruleset-cgroup" : items[i].cfg == 2 ? "senpai" : items[i].cfg == 3 ? "detectors" : "kill+ruleset-cgroup behind a prekill hook pending one tick (6 ticks)") + " faults:";
     for (auto& f : items[i].faults) s += " [" + f.str() + (f.type == 1 ? std::string(" = ") + kGlobals[f.global] : "") + "]";
     if (items[i].faults.empty()) s += " none (baseline)";
     return s;
